@@ -68,7 +68,7 @@ Definition record_obs_unrooted (b d1 d2 : url) : c07_obs :=
   let nb := normalize b in
   let nr := normalize d1 in
   mkObs (to_text b') (to_text n1) (to_text n1) (to_text b') (to_text n2)
-        (to_text nb) (to_text (normalize nb)) (to_text nr) (to_text (normalize nr)).
+        (to_text nb) (to_text (normalize nb)) (to_text nr) (to_text (normalize nr)) (to_text d1) (to_text d2).
 
 Lemma record_obs_unrooted_eq b d1 d2 : wf_base b -> wf_ref d1 \/ wf_base d1 ->
   record_obs_unrooted b d1 d2 = record_obs b d1 d2.
@@ -89,9 +89,9 @@ Proof.
   exists (record_obs b d1 d2). split.
   - rewrite <- (record_obs_unrooted_eq b d1 d2 (wbt_wf b Wb) (dest_text_ok_wf d1 W1)).
     unfold c07_model. cbn [c_base c_unrooted c_ref1 c_ref2 c_as_url1 c_as_url2].
-    rewrite (base_round_trip b Wb), (dest_round_trip d1 W1).
+    rewrite (base_round_trip b Wb), (dest_round_trip d1 W1), (dest_round_trip d2 W2).
     rewrite (navigate_normal_form _ _ d1 f1 (dest_round_trip d1 W1) eq_refl).
-    rewrite (navigate_normal_form _ _ d2 f2 (dest_round_trip d2 W2) eq_refl). reflexivity.
+    rewrite (navigate_normal_form _ _ d2 f2 (dest_round_trip d2 W2) eq_refl). destruct f1, f2; reflexivity.
   - pose proof (model_observation_satisfies_spec b d1 d2 f1 f2 (wbt_wf b Wb)
                   (dest_text_ok_wf d1 W1) (dest_text_ok_wf d2 W2)) as H.
     unfold c07_holds in *. exact H.
@@ -109,13 +109,13 @@ Proof.
   - destruct unrooted.
     + rewrite <- (record_obs_unrooted_eq b d1 d2 Wb (dest_text_ok_wf d1 W1)).
       unfold c07_model. cbn [c_base c_unrooted c_ref1 c_ref2 c_as_url1 c_as_url2].
-      rewrite Hb, (dest_round_trip d1 W1).
+      rewrite Hb, (dest_round_trip d1 W1), (dest_round_trip d2 W2).
       rewrite (navigate_normal_form _ _ d1 f1 (dest_round_trip d1 W1) eq_refl).
-      rewrite (navigate_normal_form _ _ d2 f2 (dest_round_trip d2 W2) eq_refl). reflexivity.
+      rewrite (navigate_normal_form _ _ d2 f2 (dest_round_trip d2 W2) eq_refl). destruct f1, f2; reflexivity.
     + unfold c07_model. cbn [c_base c_unrooted c_ref1 c_ref2 c_as_url1 c_as_url2].
-      rewrite Hb, (dest_round_trip d1 W1).
+      rewrite Hb, (dest_round_trip d1 W1), (dest_round_trip d2 W2).
       rewrite (navigate_normal_form _ _ d1 f1 (dest_round_trip d1 W1) eq_refl).
-      rewrite (navigate_normal_form _ _ d2 f2 (dest_round_trip d2 W2) eq_refl). reflexivity.
+      rewrite (navigate_normal_form _ _ d2 f2 (dest_round_trip d2 W2) eq_refl). destruct f1, f2; reflexivity.
   - pose proof (model_observation_satisfies_spec b d1 d2 f1 f2 Wb
                   (dest_text_ok_wf d1 W1) (dest_text_ok_wf d2 W2)) as H.
     unfold c07_holds in *. exact H.
